@@ -34,15 +34,53 @@ EMIT_METHODS = ("set", "add_section", "append", "setdefault", "extend", "update"
 class WriterValidates(PathRule):
     """state: frozenset of flags  'V' validate() was called, 'E' something was emitted"""
 
-    def __init__(self, func, selfname, out_aliases):
+    def __init__(self, func, selfname, out_aliases, cls=None, depth=0):
         self.selfname = selfname
         self.aliases = out_aliases
+        self.cls = cls
+        self.depth = depth
+
+    def _helper_summary(self, c):
+        """self.<helper>(...) of the same class: (validates on every normal exit, emits on some exit)"""
+        if self.cls is None or self.depth >= 2 or not (isinstance(c.func, ast.Attribute) and isinstance(c.func.value, ast.Name)
+                                                        and c.func.value.id == self.selfname):
+            return None
+        lk = self.cls.lookup(c.func.attr)
+        if lk is None or c.func.attr in ("serialize", "validate") or c.func.attr in lk[0].properties or lk[0].qname == "common.MetadataBase":
+            return None
+        fn = lk[1]
+        params = [a.arg for a in fn.args.args]
+        if not params:
+            return None
+        # parameters of the helper that receive the output container
+        outs = set()
+        for i, a in enumerate(c.args):
+            if facts._root_name(a) in self.aliases and i + 1 < len(params):
+                outs.add(params[i + 1])
+        for k in c.keywords:
+            if k.arg and facts._root_name(k.value) in self.aliases:
+                outs.add(k.arg)
+        rule = WriterValidates(fn, params[0], facts.rooted_aliases(fn, outs) if outs else set(), self.cls, self.depth + 1)
+        ex = Walker(rule).run(fn, {frozenset()})
+        exits = list(ex.normal) + [s_ for s_, _ in ex.ret]
+        if not exits:
+            return None
+        return all("V" in s_ for s_ in exits), any("E" in s_ for s_ in exits)
 
     def effect(self, eff, st):
         if eff.kind == "call":
             c = eff.node
             if is_validate_call(c, self.selfname):
                 return [st | {"V"}], []
+            hs = self._helper_summary(c)
+            if hs is not None:
+                add = set()
+                if hs[0]:
+                    add.add("V")
+                if hs[1]:
+                    add.add("E")
+                if add:
+                    return [st | add], []
             if isinstance(c.func, ast.Attribute):
                 root = facts._root_name(c.func.value)
                 if root in self.aliases and c.func.attr in EMIT_METHODS:
@@ -72,7 +110,7 @@ def r_writer_validates(model, rep):
             raise AnalysisError("%s.serialize has no output parameter" % cls.qname)
         selfname, out = args[0], args[1]
         aliases = facts.rooted_aliases(fn, {out})
-        rule = WriterValidates(fn, selfname, aliases)
+        rule = WriterValidates(fn, selfname, aliases, cls)
         ex = Walker(rule).run(fn, {frozenset()})
         bad = []
         emitted_somewhere = False
@@ -482,6 +520,32 @@ def r_assert_helpers(model, rep):
             if h in cls.methods:
                 rep.ob("R-ASSERT-HELPERS", "%s.%s(override)" % (cls.qname, h), False, site=cls.module.site(cls.methods[h]),
                        msg="assertion helper overridden in a subclass")
+
+
+def r_table_shape(model, rep):
+    """the constant tables the validators draw their accepted values from are well-formed: a mapping whose values are
+    sequences has *only* sequences as values (a bare string among them -- ('iso') for ('iso',) -- is flattened into its
+    characters, which then become accepted values)"""
+    n = 0
+    for m in model.modules.values():
+        for name in sorted(m.assigns):
+            try:
+                v = model._module_const(m, name)
+            except Exception:
+                continue
+            if not isinstance(v, dict) or not v:
+                continue
+            vals = list(v.values())
+            seqs = [x for x in vals if isinstance(x, (list, tuple, set, frozenset))]
+            strs = [k for k, x in v.items() if isinstance(x, str)]
+            if not seqs:
+                continue
+            n += 1
+            rep.ob("R-TABLE-SHAPE", "%s.%s" % (m.name, name), not strs, site="productmd/%s.py:%s" % (m.name, m.assigns[name][-1].lineno),
+                   msg="" if not strs else "table %s maps %s to a bare string while its other values are sequences: flattening the table "
+                                           "yields the string's characters (missing comma in a one-element tuple?)" % (name, strs[:3]))
+    if n < 1:
+        raise AnalysisError("vacuity guard: no sequence-valued constant table found (IMAGE_TYPE_FORMAT_MAPPING expected)")
 
 
 def r_val_cover(model, rep):
@@ -1077,6 +1141,15 @@ class DestSafe(PathRule):
                 may = "validate()"
             elif self.model.may_raise_validation(t):
                 may = "%s may raise ValueError/TypeError" % t.qname
+        if not may:
+            # a repo function handed over as a callback (json.dump(..., default=hook)) runs inside the call -- here or in a callee
+            for cb in _callbacks(self.model, self.fref, c):
+                if _may_raise_validation_deep(self.model, cb):
+                    may = "callback %s may raise ValueError/TypeError" % cb.qname
+            if not may and exact:
+                for t in targets:
+                    if _has_raising_callback(self.model, t):
+                        may = "%s hands a validating callback to a library call" % t.qname
         if may:
             if "T" in st:
                 self.bad.append((c.lineno, "%s() runs after the destination was opened/created -- %s%s" % (
@@ -1089,6 +1162,69 @@ class DestSafe(PathRule):
                 self.bad.append((c.lineno, "%s touches the destination while a validation error is being handled" % touch))
             normal = st | {"T"}
         return [normal], raising
+
+
+def _may_raise_validation_deep(model, f, _seen=None):
+    """may-raise of a callback, following calls resolved by name as well (the receiver of obj.method() inside a generic hook is
+    unknown: any repo method of that name may run)"""
+    _seen = _seen if _seen is not None else set()
+    if f.qname in _seen:
+        return False
+    _seen.add(f.qname)
+    if model.may_raise_validation(f) or f.node.name == "validate":
+        return True
+    lt = model.local_types(f)
+    for n in ast.walk(f.node):
+        if isinstance(n, ast.Call):
+            targets, exact = model.resolve_call(f, n, lt)
+            targets = list(targets)
+            # getattr(obj, "<name>") : any repo method of that name may be fetched (and then called)
+            if dotted(n.func) == "getattr" and len(n.args) >= 2 and isinstance(n.args[1], ast.Constant) and isinstance(n.args[1].value, str):
+                for c in model.classes.values():
+                    if n.args[1].value in c.methods:
+                        targets.append(FuncRef(c.module, c, c.methods[n.args[1].value]))
+            targets.extend(_callbacks(model, f, n))
+            for t in targets:
+                if _may_raise_validation_deep(model, t, _seen):
+                    return True
+    return False
+
+
+def _has_raising_callback(model, f, _seen=None):
+    """does ``f`` (or an exactly resolved callee) pass a repo function that may raise a validation error as a callback?"""
+    _seen = _seen if _seen is not None else set()
+    if f.qname in _seen:
+        return False
+    _seen.add(f.qname)
+    lt = model.local_types(f)
+    for n in ast.walk(f.node):
+        if isinstance(n, ast.Call):
+            for cb in _callbacks(model, f, n):
+                if _may_raise_validation_deep(model, cb):
+                    return True
+            targets, exact = model.resolve_call(f, n, lt)
+            if exact:
+                for t in targets:
+                    if _has_raising_callback(model, t, _seen):
+                        return True
+    return False
+
+
+def _callbacks(model, fref, c):
+    """repo functions passed as arguments of a call (they run inside it)"""
+    out = []
+    for a in list(c.args) + [k.value for k in c.keywords]:
+        if isinstance(a, (ast.Name, ast.Attribute)):
+            d = dotted(a)
+            r = model.resolve_name(fref.module, d) if d else None
+            if r and r[0] == "func":
+                out.append(r[1])
+            elif isinstance(a, ast.Attribute) and isinstance(a.value, ast.Name) and fref.cls is not None \
+                    and fref.node.args.args and a.value.id == fref.node.args.args[0].arg:
+                lk = fref.cls.lookup(a.attr)
+                if lk and a.attr not in lk[0].properties:
+                    out.append(FuncRef(lk[0].module, lk[0], lk[1]))
+    return out
 
 
 def r_dump_order(model, rep):
@@ -1157,6 +1293,7 @@ def check_c06(model, rep, tier):
     r_dump_validates(model, rep)
     r_val_cover(model, rep)
     r_val_strength(model, rep, tier)
+    r_table_shape(model, rep)
     r_label_lang(model, rep)
     r_assert_helpers(model, rep)
     r_skip_implies_empty(model, rep)
@@ -1187,6 +1324,7 @@ def check_c07(model, rep, tier):
     r_hdr_re(model, rep)
     r_validate_all(model, rep, strict=False)
     r_val_strength(model, rep, tier)
+    r_table_shape(model, rep)
     r_label_lang(model, rep)
     r_assert_helpers(model, rep)
     r_val_dead(model, rep)
@@ -1204,6 +1342,8 @@ def check_c07(model, rep, tier):
     from .sources import r_add_scan, r_load_via_add
     r_add_scan(model, rep, tier)
     r_load_via_add(model, rep)
+    from .roundtrip import r_discinfo_lines
+    r_discinfo_lines(model, rep)
 
 
 @register("C18")
